@@ -7,6 +7,8 @@ import RichModel.Lemmas.TableChars
 import RichModel.Lemmas.TableText
 import RichModel.Lemmas.TableStable
 import RichModel.Lemmas.TableGeneral
+import RichModel.Lemmas.TableExpand
+import RichModel.Lemmas.TableRows
 import RichModel.Gen.CellWidths
 import RichModel.Gen.TableBoxes
 /-!
@@ -814,6 +816,239 @@ theorem min_width_overflows :
     ({ columns := [{ header := wCell ['a', 'a', 'a', 'a', 'a', 'a', 'a', 'a', 'a', 'a', 'a', 'a'], footer := wCell [], cells := [], minWidth := some 10 },
                    { header := wCell ['b', 'b', 'b', 'b', 'b', 'b', 'b', 'b', 'b', 'b', 'b', 'b'], footer := wCell [], cells := [] }],
        padding := (0, 0, 0, 0) } : Table).calcWidths Flags.allRepaired 16 = some [10, 8] := by decide
+
+/-! ### exact expansion for EVERY kind of column: `min_width`, `no_wrap`, fixed `width`, `max_width` -/
+
+/-- **table_expand_exact for arbitrary columns.**  With `table_width` refreshed after the re-measure (`staleTableWidth` repaired, as
+in /repo now) an expanding table of ARBITRARY sane columns — `min_width`, `no_wrap`, fixed `width`, `max_width`, ratio columns through
+the first-pass widths `ws0` — offered at least its structural minimum (`Σ ws0` over the columns that may not shrink + one cell per column
+that may) is EXACTLY as wide as asked, every column at least one cell, PROVIDED the re-measure after the collapse does not push the
+columns over the offer again.  (Natural widths that fit: no proviso at all.) -/
+theorem table_expand_exact_general (fl : Flags) (hst : fl.staleTableWidth = false) (t : Table) (maxWidth : Int)
+    (hexp : t.expand = true) (hfl : fl.minWidthCapsExpand = false ∨ t.minWidth = none)
+    (hsane : t.Sane) (hne : t.columns ≠ [])
+    (ws0 : List Int) (h0 : t.firstWidths fl maxWidth = some ws0) (hl : ws0.length = t.columns.length) (hp : ∀ w ∈ ws0, 1 ≤ w)
+    (hbudget : nonWrapSum (ws0.zip t.wrapable) + wrapCount (ws0.zip t.wrapable) ≤ maxWidth)
+    (hrem : maxWidth < ws0.sum → (t.remeasure (collapseWidths ws0 t.wrapable maxWidth)).sum ≤ maxWidth) :
+    ∃ ws, t.calcWidths fl maxWidth = some ws ∧ ws.sum = maxWidth ∧ ws.length = t.columns.length ∧ ∀ w ∈ ws, 1 ≤ w :=
+  calcWidths_expand_exact_general fl hst t maxWidth hexp hfl hsane hne ws0 h0 hl hp hbudget hrem
+
+/-- **…with `min_width` columns**: the proviso holds whenever `_collapse_widths` (which knows nothing of `min_width`) leaves every
+column at or above its `min_width + padding` floor (`Table.floors`; 0 for a column without `min_width`).  Then the re-measure cannot
+widen any column and the expanding table is exactly as wide as asked.  `expand_min_width_column_overflows` shows the condition is
+needed: below a floor the code as it stands is too wide. -/
+theorem table_expand_exact_above_floors (fl : Flags) (hst : fl.staleTableWidth = false) (t : Table) (maxWidth : Int)
+    (hexp : t.expand = true) (hfl : fl.minWidthCapsExpand = false ∨ t.minWidth = none)
+    (hsane : t.Sane) (hne : t.columns ≠ [])
+    (ws0 : List Int) (h0 : t.firstWidths fl maxWidth = some ws0) (hl : ws0.length = t.columns.length) (hp : ∀ w ∈ ws0, 1 ≤ w)
+    (hbudget : nonWrapSum (ws0.zip t.wrapable) + wrapCount (ws0.zip t.wrapable) ≤ maxWidth)
+    (hfloor : maxWidth < ws0.sum → ∀ p ∈ (collapseWidths ws0 t.wrapable maxWidth).zip t.floors, p.2 ≤ p.1) :
+    ∃ ws, t.calcWidths fl maxWidth = some ws ∧ ws.sum = maxWidth ∧ ws.length = t.columns.length ∧ ∀ w ∈ ws, 1 ≤ w := by
+  apply table_expand_exact_general fl hst t maxWidth hexp hfl hsane hne ws0 h0 hl hp hbudget
+  intro hover
+  obtain ⟨_, hrs, hrl, hr1⟩ := shrinkPre_budget t maxWidth ws0 hl hp hover hbudget
+  have := remeasure_le_of_floor t hsane _ hrl hr1 (hfloor hover)
+  omega
+
+/-- **…with `no_wrap` columns (and fixed-width / capped ones), no `min_width` that is read, no active ratio**: NO proviso.  At every
+available width from the structural minimum up — the natural widths of the columns that may not shrink plus one cell for each that
+may — the expanding table is exactly as wide as asked. -/
+theorem table_expand_exact_no_wrap (fl : Flags) (hst : fl.staleTableWidth = false) (t : Table) (maxWidth : Int)
+    (hexp : t.expand = true) (hfl : fl.minWidthCapsExpand = false ∨ t.minWidth = none)
+    (hsane : t.Sane) (hnr : t.NoRatio) (hne : t.columns ≠ [])
+    (hnomin : ∀ c ∈ t.columns, c.minWidth = none ∨ c.width.isSome = true)
+    (hbudget : nonWrapSum ((t.indexed.map (fun ci => orOne (t.measureColumn ci.2 ci.1 maxWidth).maximum)).zip t.wrapable)
+      + wrapCount ((t.indexed.map (fun ci => orOne (t.measureColumn ci.2 ci.1 maxWidth).maximum)).zip t.wrapable) ≤ maxWidth) :
+    ∃ ws, t.calcWidths fl maxWidth = some ws ∧ ws.sum = maxWidth ∧ ws.length = t.columns.length ∧ ∀ w ∈ ws, 1 ≤ w := by
+  have hp : ∀ w ∈ t.indexed.map (fun ci => orOne (t.measureColumn ci.2 ci.1 maxWidth).maximum), 1 ≤ w := by
+    intro w hw
+    simp only [List.mem_map] at hw
+    obtain ⟨ci, hci, rfl⟩ := hw
+    exact orOne_pos _ (measureColumn_nonneg t hsane ci.2 ci.1 (mem_indexed t ci hci) maxWidth)
+  have hl : (t.indexed.map (fun ci => orOne (t.measureColumn ci.2 ci.1 maxWidth).maximum)).length = t.columns.length := by
+    simp [indexed_length]
+  apply table_expand_exact_above_floors fl hst t maxWidth hexp hfl hsane hne _ (firstWidths_noRatio fl t hnr maxWidth) hl hp hbudget
+  intro hover p hpm
+  obtain ⟨_, _, _, hr1⟩ := shrinkPre_budget t maxWidth _ hl hp hover hbudget
+  have h1 := hr1 p.1 (List.of_mem_zip hpm).1
+  have h2 := floors_zero t hnomin p.2 (List.of_mem_zip hpm).2
+  omega
+
+/-- Non-vacuity: a `no_wrap` column beside a wrapping `min_width` column whose floor (3) the collapse stays above — offered 12 cells
+for natural widths 6 + 12, the expanding table is exactly 12 wide; and a `no_wrap` column alone with a free one. -/
+example : ({ columns := [{ header := wCell ['a', 'a', 'a', 'a', 'a', 'a'], footer := wCell [], cells := [], noWrap := true },
+                          { header := wCell ['b', 'b', 'b', 'b', 'b', 'b', 'b', 'b', 'b', 'b', 'b', 'b'], footer := wCell [], cells := [], minWidth := some 3 }],
+             expandFlag := true, padding := (0, 0, 0, 0) } : Table).calcWidths Flags.allRepaired 12 = some [6, 6] := by decide
+example : ({ columns := [{ header := wCell ['a', 'a', 'a', 'a', 'a', 'a'], footer := wCell [], cells := [], noWrap := true },
+                          { header := wCell ['b', 'b', 'b', 'b', 'b', 'b', 'b', 'b', 'b', 'b', 'b', 'b'], footer := wCell [], cells := [] }],
+             expandFlag := true, padding := (0, 0, 0, 0) } : Table).floors = [0, 0] := by decide
+
+/-- **Finding (the code as it stands, `Flags.allRepaired` = /repo now): an expanding table with a `min_width` column is WIDER than
+asked although it could fit.**  Columns of natural width 12, the first with `min_width=10`, `expand=True`, 16 cells on offer (structural
+minimum 10 + 1 = 11): `_collapse_widths` ignores `min_width` and shrinks both columns to 8, the re-measure puts the first back to 10 —
+`[10, 8]`, 18 cells in 16 (`[10, 6]` would fit and keep the floor).  `table_expand_exact_above_floors` is exactly the part of the
+statement that holds. -/
+def wTableMinCol : Table :=
+  { columns := [{ header := wCell ['a', 'a', 'a', 'a', 'a', 'a', 'a', 'a', 'a', 'a', 'a', 'a'], footer := wCell [], cells := [], minWidth := some 10 },
+                { header := wCell ['b', 'b', 'b', 'b', 'b', 'b', 'b', 'b', 'b', 'b', 'b', 'b'], footer := wCell [], cells := [] }],
+    expandFlag := true, padding := (0, 0, 0, 0) }
+
+theorem expand_min_width_column_overflows :
+    wTableMinCol.calcWidths Flags.allRepaired 16 = some [10, 8] ∧ wTableMinCol.expand = true ∧
+    nonWrapSum (([12, 12] : List Int).zip wTableMinCol.wrapable) + wrapCount (([12, 12] : List Int).zip wTableMinCol.wrapable) + wTableMinCol.floorSum ≤ 16 := by
+  decide
+
+/-! ### `add_row`: the row bookkeeping (`Model/TableRows.lean`) -/
+
+section AddRow
+open TableRows
+
+/-- `add_row` raises `NotRenderableError` exactly when one of its arguments is not renderable (`None` is fine). -/
+theorem add_row_raises_iff {α : Type} (blank blankText : α) (b : Builder α) (args : List (Arg α)) (m : RowMeta) :
+    (b.addRow blank blankText args m).2 = true ↔ ∀ a ∈ args, a ≠ Arg.bad :=
+  addRow_flag blank blankText b args m
+
+/-- **One accepted `add_row`** on a table whose columns each hold one cell per row: it still does, `rows` got exactly this `Row` at
+the end, there are `max(columns, arguments)` columns, no earlier cell moved, a column the call created holds `Text("")` in every
+earlier row, and the new row holds the arguments in order (`""` for `None` and for the columns the call did not reach). -/
+theorem add_row_spec {α : Type} (blank blankText : α) (b : Builder α) (hr : b.Rect) (args : List (Arg α)) (m : RowMeta)
+    (hok : (b.addRow blank blankText args m).2 = true) :
+    (b.addRow blank blankText args m).1.Rect ∧ (b.addRow blank blankText args m).1.rows = b.rows ++ [m] ∧
+    (b.addRow blank blankText args m).1.cols.length = max b.cols.length args.length ∧
+    (∀ j k, j < b.cols.length → k < b.rows.length → (b.addRow blank blankText args m).1.cellAt blank j k = b.cellAt blank j k) ∧
+    (∀ j k, b.cols.length ≤ j → j < (b.addRow blank blankText args m).1.cols.length → k < b.rows.length →
+      (b.addRow blank blankText args m).1.cellAt blank j k = blankText) ∧
+    (∀ j, j < (b.addRow blank blankText args m).1.cols.length →
+      (b.addRow blank blankText args m).1.cellAt blank j b.rows.length = (args.getD j Arg.none).val blank) :=
+  addRow_ok blank blankText b hr args m hok
+
+/-- **Rows are kept in insertion order, for every sequence of accepted `add_row` calls** (any number of calls, any number of
+arguments each, on any rectangular table — in particular the empty one with `n` declared columns): the table stays rectangular, `rows`
+is the old rows followed by one `Row` per call in call order (so `end_section` / the row style sit at the call's own index), and row
+`b.rows.length + i` holds the arguments of call `i` — `""` for `None` or a missing argument, `Text("")` in the columns later calls
+created. -/
+theorem add_rows_in_insertion_order {α : Type} (blank blankText : α) (calls : List (List (Arg α) × RowMeta)) (b : Builder α)
+    (hr : b.Rect) (hok : (b.addRows blank blankText calls).2 = true) :
+    (b.addRows blank blankText calls).1.Rect ∧ (b.addRows blank blankText calls).1.rows = b.rows ++ calls.map (·.2) ∧
+    b.cols.length ≤ (b.addRows blank blankText calls).1.cols.length ∧
+    (∀ j k, j < b.cols.length → k < b.rows.length → (b.addRows blank blankText calls).1.cellAt blank j k = b.cellAt blank j k) ∧
+    (∀ j k, b.cols.length ≤ j → j < (b.addRows blank blankText calls).1.cols.length → k < b.rows.length →
+      (b.addRows blank blankText calls).1.cellAt blank j k = blankText) ∧
+    (∀ i, i < calls.length → ∀ j, j < (b.addRows blank blankText calls).1.cols.length →
+      (b.addRows blank blankText calls).1.cellAt blank j (b.rows.length + i) =
+        if j < ncolsAfter b.cols.length calls i then ((calls.getD i ([], {})).1.getD j Arg.none).val blank else blankText) :=
+  addRows_spec blank blankText calls b hr hok
+
+/-- **A call that raises leaves the table half-updated** (the code as it stands; `Row` is not appended): the columns left of the
+offending argument already hold their new cell, the column AT it exists (created and back-filled if it was missing) without one,
+the columns to its right are untouched — the table is no longer rectangular. -/
+theorem add_row_error_state {α : Type} (blank blankText : α) (b : Builder α) (pre post : List (Arg α)) (m : RowMeta)
+    (hpre : ∀ a ∈ pre, a ≠ Arg.bad) :
+    b.addRow blank blankText (pre ++ Arg.bad :: post) m =
+      ({ cols := (List.range pre.length).map (fun j => b.cols.getD j (List.replicate b.rows.length blankText) ++ [(pre.getD j Arg.none).val blank])
+            ++ b.cols.getD pre.length (List.replicate b.rows.length blankText) :: b.cols.drop (pre.length + 1),
+         rows := b.rows }, false) := by
+  have hp : ∃ post', padArgs b.cols.length (pre ++ Arg.bad :: post) = pre ++ Arg.bad :: post' := by
+    unfold padArgs
+    split
+    · exact ⟨post ++ List.replicate (b.cols.length - (pre ++ Arg.bad :: post).length) Arg.none, by simp [List.append_assoc]⟩
+    · exact ⟨post, rfl⟩
+  obtain ⟨post', hp⟩ := hp
+  unfold Builder.addRow
+  simp only [hp, addCells_bad blank blankText b.rows.length pre post' b.cols hpre, Bool.false_eq_true, if_false]
+
+/-- Non-vacuity: two declared columns; `add_row("a")`, then `add_row("b", None, "c", end_section=True)` creates a third column and
+back-fills row 0; a third call with a non-renderable second argument raises and leaves column 0 one cell longer. -/
+example : (({ cols := [[], []], rows := [] } : Builder Nat).addRows 0 99
+      [([Arg.ok 1], {}), ([Arg.ok 2, Arg.none, Arg.ok 3], { endSection := true })]).1.cols = [[1, 2], [0, 0], [99, 3]] := by decide
+example : (({ cols := [[1, 2], [0, 0], [99, 3]], rows := [{}, {}] } : Builder Nat).addRow 0 99 [Arg.ok 4, Arg.bad] {}) =
+    ({ cols := [[1, 2, 4], [0, 0], [99, 3]], rows := [{}, {}] }, false) := by decide
+
+/-- **…and so the rendered table shows header, the `add_row` calls in call order, footer**: for a table whose columns' `_cells` are
+what a sequence of accepted `add_row` calls built (from a rectangular start), the rows `_render` zips are the header (if shown), one
+row per `Row` in insertion order, the footer (if shown) — `rows_in_order` then puts each on lines of its own, top to bottom. -/
+theorem built_table_rows (blank blankText : Cell) (b0 : Builder Cell) (calls : List (List (Arg Cell) × RowMeta)) (t : Table)
+    (hne : t.columns ≠ []) (hb0 : b0.Rect) (hok : (b0.addRows blank blankText calls).2 = true)
+    (hcols : t.columns.map (·.cells) = (b0.addRows blank blankText calls).1.cols) :
+    t.rows = (if t.showHeader then [t.columns.map (·.header)] else [])
+      ++ (List.range (b0.rows.length + calls.length)).map (fun r => t.columns.map (fun c => c.cells.getD r default))
+      ++ (if t.showFooter then [t.columns.map (·.footer)] else []) := by
+  obtain ⟨h1, h2, _⟩ := addRows_spec blank blankText calls b0 hb0 hok
+  apply rows_header_cells_footer t _ hne
+  intro c hc
+  have : c.cells ∈ (b0.addRows blank blankText calls).1.cols := by rw [← hcols]; exact List.mem_map_of_mem hc
+  rw [h1 _ this, h2]
+  simp
+
+end AddRow
+
+/-! ### which style every character carries (`Model/TableRows.lean`, styles as the list of their sources) -/
+
+section Styles
+open TableRows
+
+/-- `row_styles` cycle: data row `r` starts with `row_styles[r % n]` (an index inside the list), rows `r` and `r + n` get the same
+entry, and the row's own style — if it has one — comes after it (so it wins). -/
+theorem row_styles_cycle (n : Nat) (hn : 0 < n) (rows : List RowMeta) (r : Nat) :
+    getRowStyle n rows r = Src.rowStyles (r % n) :: (match (rows.getD r {}).style with | some s => [Src.row s] | none => []) ∧
+    r % n < n ∧ (r + n) % n = r % n := by
+  refine ⟨?_, Nat.mod_lt _ hn, by simp⟩
+  unfold getRowStyle
+  simp only [Nat.pos_iff_ne_zero.mp hn, if_false, List.singleton_append]
+  rfl
+
+/-- Without `row_styles` a row carries only its own style (or none). -/
+theorem row_style_without_row_styles (rows : List RowMeta) (r : Nat) :
+    getRowStyle 0 rows r = (match (rows.getD r {}).style with | some s => [Src.row s] | none => []) := by
+  unfold getRowStyle
+  simp only [if_true, List.nil_append]
+  rfl
+
+/-- **Which style a cell's characters carry**, in a table whose columns each hold `nrows` cells (so the zipped row's kind and the
+column entry's kind agree; `n` = number of zipped rows): the header row carries `table.style + table.header_style +
+column.header_style` and NO row style; the footer row `table.style + table.footer_style + column.footer_style`; data row `r`
+`table.style + row_styles[r % k] + rows[r].style + table.style + column.style` — to which the cell's own rendering adds its styles
+on the right. -/
+theorem cell_style_spec (showHeader showFooter : Bool) (k : Nat) (rows : List RowMeta) (n index j : Nat) :
+    cellStyle showHeader showFooter k rows n index j n =
+      match rowKind showHeader showFooter n index with
+      | .header => [Src.table, Src.tableHeader, Src.colHeader j]
+      | .footer => [Src.table, Src.tableFooter, Src.colFooter j]
+      | .data r => [Src.table] ++ getRowStyle k rows r ++ [Src.table, Src.colStyle j] := by
+  unfold cellStyle cellOwnStyle rowKind
+  by_cases h1 : (index == 0 && showHeader) = true
+  · simp [h1, rowStyle]
+  · by_cases h2 : (index + 1 == n && showFooter) = true
+    · simp [h1, h2, rowStyle]
+    · simp [h1, h2, rowStyle]
+
+/-- The zipped row at `index` is the header exactly at index 0 of a table that shows it, the footer exactly at the last index of one
+that shows it, and otherwise data row `index - (1 if show_header)` — which is a valid index into `table.rows`. -/
+theorem row_kind_spec (showHeader showFooter : Bool) (nrows n index : Nat)
+    (hn : n = (if showHeader then 1 else 0) + nrows + (if showFooter then 1 else 0)) (hidx : index < n) :
+    (rowKind showHeader showFooter n index = .header ↔ (index = 0 ∧ showHeader = true)) ∧
+    (rowKind showHeader showFooter n index = .footer → (index + 1 = n ∧ showFooter = true)) ∧
+    (∀ r, rowKind showHeader showFooter n index = .data r → r < nrows ∧ index = r + (if showHeader then 1 else 0)) := by
+  subst hn
+  unfold rowKind
+  cases showHeader <;> cases showFooter <;>
+    simp only [Bool.and_true, Bool.and_false, Bool.false_eq_true, if_false, if_true, beq_iff_eq, Nat.add_zero, Nat.zero_add] at hidx ⊢ <;>
+    refine ⟨?_, ?_, ?_⟩ <;> grind
+
+/-- Borders, edges and separators never depend on the row: always `table.style + border_style`; a divider does only when its
+character is whitespace, and then only through the row's BACKGROUND. -/
+theorem divider_style_spec (sp showHeader showFooter : Bool) (k : Nat) (rows : List RowMeta) (n index : Nat) :
+    dividerStyle sp showHeader showFooter k rows n index =
+      if sp then [Src.bgOf (rowStyle k rows (rowKind showHeader showFooter n index)), Src.table, Src.border] else [Src.table, Src.border] := by
+  unfold dividerStyle borderStyle
+  split <;> simp
+
+/-- The blank lines that fill a shorter cell up to the row height carry the table and row style only (no column style). -/
+theorem fill_is_cell_prefix (showHeader showFooter : Bool) (k : Nat) (rows : List RowMeta) (n index j m : Nat) :
+    cellStyle showHeader showFooter k rows n index j m =
+      fillStyle showHeader showFooter k rows n index ++ cellOwnStyle showHeader showFooter j m index := rfl
+
+end Styles
 
 /-! ### totality (what C14 needs): `_calculate_column_widths` never trips `assert total_ratio > 0` -/
 
